@@ -395,6 +395,12 @@ type solverSpec struct {
 var solvers = []solverSpec{
 	{"z3-new", func(f string, t int) []string { return []string{"z3-new", fmt.Sprintf("-T:%d", t), f} }},
 	{"z3", func(f string, t int) []string { return []string{"z3", fmt.Sprintf("-T:%d", t), f} }},
+	{"z3-new/arith2", func(f string, t int) []string {
+		return []string{"z3-new", fmt.Sprintf("-T:%d", t), "smt.mbqi=false", "smt.arith.solver=2", f}
+	}},
+	{"z3-new/norel", func(f string, t int) []string {
+		return []string{"z3-new", fmt.Sprintf("-T:%d", t), "smt.mbqi=false", "smt.relevancy=0", f}
+	}},
 	{"cvc5", func(f string, t int) []string {
 		return []string{"cvc5", "--produce-models", fmt.Sprintf("--tlimit=%d", t*1000), f}
 	}},
@@ -588,6 +594,9 @@ func (r *Runner) solveOne(o *Obligation) {
 			os.WriteFile(mfile, []byte(o.smtText(q, true)), 0o644)
 			for _, sp := range solvers {
 				if sp.name != res.solver {
+					continue
+				}
+				if strings.Contains(sp.name, "/") {
 					continue
 				}
 				mr := runSolver(context.Background(), sp, mfile, r.Timeout)
